@@ -5,6 +5,7 @@ import (
 	"encoding/json"
 	"errors"
 	"fmt"
+	"google.golang.org/protobuf/types/known/wrapperspb"
 	"reflect"
 	"sort"
 	"strconv"
@@ -39,6 +40,32 @@ type dNest struct {
 	PM *map[string]interface{}
 	SS [][]dLeaf  // structs reached through a slice of slices
 	SQ [][]*dLeaf // ... of pointers
+	N  int
+}
+
+// wrapper-value (wrapperspb) fields, directly, by value, and as values of typed and untyped maps
+type dWrap struct {
+	S  *wrapperspb.StringValue `class:"secret"`
+	B  *wrapperspb.BytesValue  `class:"sensitive"`
+	P  *wrapperspb.StringValue `class:"public"`
+	U  *wrapperspb.StringValue
+	Z  *wrapperspb.StringValue `class:"secret"` // nil
+	SV wrapperspb.StringValue  `class:"secret"`
+	M  map[string]interface{}
+	TM map[string]*wrapperspb.StringValue
+	TB map[string]*wrapperspb.BytesValue
+	N  int
+}
+
+// interface-typed fields holding their value directly (string, []byte, struct) or through a pointer
+type dIface struct {
+	S  interface{} `class:"secret"`
+	B  interface{} `class:"sensitive"`
+	P  interface{} `class:"public"`
+	U  interface{}
+	T  interface{}
+	PT interface{}
+	L  interface{} `class:"secret"`
 	N  int
 }
 
@@ -275,7 +302,7 @@ func deepShapes(p *prng, n int, st *stats, oracle func(string, ...any)) {
 		kind := ""
 		curTags = nil
 		f.IgnoreTypes = nil
-		switch p.intn(22) {
+		switch p.intn(24) {
 		case 0:
 			l := mkLeaf(c, p)
 			payload, kind = &l, "ptr-struct"
@@ -341,6 +368,22 @@ func deepShapes(p *prng, n int, st *stats, oracle func(string, ...any)) {
 			m, tags := mkTagMap(c, p)
 			curTags = tags
 			payload, kind = []*dTagHolder{{Attrs: m, L: mkLeaf(c, p)}}, "slice-with-taggable-map-field"
+		case 22:
+			w := &dWrap{S: wrapperspb.String(c.prot()), B: wrapperspb.Bytes([]byte(c.prot())), P: wrapperspb.String(c.pub()), U: wrapperspb.String(c.prot()), N: 1}
+			w.SV.Value = c.prot()
+			if p.chance(1, 2) {
+				w.M = map[string]interface{}{"ws": wrapperspb.String(c.prot()), "wb": wrapperspb.Bytes([]byte(c.prot()))}
+			}
+			if p.chance(1, 2) {
+				w.TM = map[string]*wrapperspb.StringValue{"a": wrapperspb.String(c.prot()), "b": wrapperspb.String(c.prot())}
+			}
+			if p.chance(1, 2) {
+				w.TB = map[string]*wrapperspb.BytesValue{"a": wrapperspb.Bytes([]byte(c.prot()))}
+			}
+			payload, kind = w, "wrapper-values"
+		case 23:
+			l := mkLeaf(c, p)
+			payload, kind = &dIface{S: c.prot(), B: []byte(c.prot()), P: c.pub(), U: c.prot(), T: mkLeaf(c, p), PT: &l, L: []string{c.prot()}, N: 1}, "interface-held-values"
 		case 21:
 			// zero payloads of every kind: forwarded unchanged, with their dynamic type
 			switch p.intn(7) {
